@@ -28,13 +28,40 @@ theorem free_level_exact (cur jobHw usage r : HW.Hardware)
 
 /-- the model's `freeLevel` on one location that has books is exactly that update -/
 theorem freeLevel_single (env : Sched.Env) (jobHw cur : HW.Hardware) (lvl : Sched.Level) (s : Sched.St) (ust : HW.StorageMap)
-    (hc : Sched.assocGet s.reserved lvl.name = some cur) (hu : Sched.usageDisks env lvl.dep jobHw.storage = .ok ust) :
+    (hc : Sched.assocGet s.reserved lvl.name = some cur)
+    (hu : (if Sched.probeFails env lvl.dep jobHw.storage then .ok [] else Sched.usageDisks env lvl.dep jobHw.storage) = .ok ust) :
     Sched.freeLevel env jobHw [lvl] s =
       match cur.sub jobHw >>= fun d => d.add (HW.mkHardware 0 0 ust) with
       | .ok r => ({ s with reserved := Sched.assocSet s.reserved lvl.name r }, none)
       | .error e => (s, some (.hw e)) := by
   simp only [Sched.freeLevel, hc, hu]
   cases cur.sub jobHw >>= fun d => d.add (HW.mkHardware 0 0 ust) <;> rfl
+
+/-- **the failing-probe branch of `_free_resources`** (`except WorkflowExecutionException: storage_usage = Hardware()`):
+    when the disk-usage probe of the location raises, the release still subtracts the job's cores, memory and storage —
+    the measured usage is just 0 -/
+theorem release_with_failing_probe (cur jobHw r : HW.Hardware)
+    (h : (cur.sub jobHw >>= fun d => d.add HW.Hardware.empty) = .ok r) :
+    r.cores = cur.cores - jobHw.cores ∧ r.memory = cur.memory - jobHw.memory ∧
+    ∀ μ ∈ HW.mounts cur.storage, HW.mountTotal r.storage μ = HW.mountTotal cur.storage μ - HW.mountTotal jobHw.storage μ := by
+  obtain ⟨h1, h2, h3⟩ := free_level_exact cur jobHw HW.Hardware.empty r h
+  have e0 : HW.Hardware.empty.cores = 0 ∧ HW.Hardware.empty.memory = 0 := by decide +kernel
+  have et : ∀ μ, HW.mountTotal HW.Hardware.empty.storage μ = 0 := by
+    intro μ
+    simp only [HW.Hardware.empty, HW.mkHardware, List.isEmpty_nil, if_true, HW.mountTotal]
+    split <;> grind
+  refine ⟨by rw [h1, e0.1]; grind, by rw [h2, e0.2]; grind, fun μ hμ => ?_⟩
+  rw [h3 μ hμ, et μ]; grind
+
+/-- in the model, a location whose probe fails is released with `storage_usage = Hardware()` -/
+theorem freeLevel_probe_fails (env : Sched.Env) (jobHw cur : HW.Hardware) (lvl : Sched.Level) (s : Sched.St)
+    (hc : Sched.assocGet s.reserved lvl.name = some cur) (hf : Sched.probeFails env lvl.dep jobHw.storage = true) :
+    Sched.freeLevel env jobHw [lvl] s =
+      match cur.sub jobHw >>= fun d => d.add HW.Hardware.empty with
+      | .ok r => ({ s with reserved := Sched.assocSet s.reserved lvl.name r }, none)
+      | .error e => (s, some (.hw e)) := by
+  have := freeLevel_single env jobHw cur lvl s [] hc (by simp [hf])
+  simpa [HW.Hardware.empty] using this
 
 /-- **a releasing notification subtracts, at every level, exactly what the allocation added** (and adds the measured
     usage there): whatever happened in between, `_free_resources` works from the entries `_allocate_job` recorded -/
